@@ -56,7 +56,8 @@ def run(ctx):
             return "Obs %s" % bad.get("kind")
         return str(e)
 
-    ctx.validate_all("Trace_Scalars", trace, key_of, group_start="__each__", max_rejections=12, rest_cfg="Trace_Scalars_rest.cfg",
+    # (a recorder that died leaves a truncated trace: the coverage invariant does not apply to it)
+    ctx.validate_all("Trace_Scalars", trace, key_of, cfg="Trace_Scalars_rest.cfg" if d else None, group_start="__each__", max_rejections=12, rest_cfg="Trace_Scalars_rest.cfg",
                      what_of=lambda ex, bad: "rejected by spec/Trace_Scalars.tla: %s" % json.dumps(bad)[:300])
     lines = open(trace).read().splitlines()
     ctx.sample({"trace_event": json.loads(lines[0])})
